@@ -31,6 +31,20 @@ CHECKS = {
             "Equality is up to a stated numerical tolerance, so deviations below ~1e-7 relative are invisible.",
             "Trusts scipy.integrate.quad at epsrel 1e-12 on decade-split pieces (validated against closed-form "
             "incomplete-gamma values to 1e-15); end points in [1e-4,20]; n <= 6."),
+    "C13": ("3/C13",
+            "Hypothesis-generated constructor arguments and refinement histories; invariants after every step; "
+            "tail / per-step probabilities against quadrature of the model density",
+            "Exploration: every grid constructor (uniform, fixed-size, geometric, geometric-with-bounds, "
+            "probability-step, credit symmetric/asymmetric) in d=1..3 with generated models, steps and 0..4 "
+            "successive refine() calls; after construction and after each refinement: finite strictly increasing "
+            "axes, 0 at the origin index with -h/+h neighbours, ends = reported truncations, requested tail "
+            "probability (1e-6) and per-step probability, middle() halves the gap mass, thresholds on cell "
+            "boundaries; refinement keeps old states at doubled indices, inserts exactly the pre-refinement "
+            "middle() strictly inside each gap, halves h, doubles the origin, keeps the bounds, refines shared "
+            "axes once each.",
+            "Sound domain: h relative to the model's jump scale so that each half-axis has >= 2 states, "
+            "two-sided jump laws, thresholds inside (l,-h); documented ValueError rejections are counted as "
+            "rejected, not as passes."),
 }
 
 NOT_YET = "check not built yet in this session; will be claimed when its module exists"
